@@ -67,6 +67,12 @@ CLAIMED['C01'] = dict(
    note='Trusted: clang AST, sa/valueflow.py (term language and its treatment of std wrappers as transparent), SQL reader, catalog model. Not decided (value level): conversion exactness, clamping / truncation arithmetic, padding to eight slots, fixed-point (idempotence). One genuine defect repaired (1.x snapshot never read rating); three known findings, one root cause (1.x bpm columns).',
    ref='DESIGN.md 4 C01')
 
+CLAIMED['C06'] = dict(
+   technique='value-flow (provenance) analysis of all track getters, setters, snapshot() and update() of both implementations per schema range; call-graph check of the facade; where-clause analysis for row scope',
+   text='For each of the 24 getter/setter pairs, both implementations and every schema range (216 instances per rule): G1 every location the getter reads is written by the setter from its argument; G2 getter and snapshot field read the same locations (differences only over redundant encodings both writers always co-write) and pass the same locations in the same converter argument positions; G3 the getter reads only locations update()/create_track() write from that field; S1 setter and update() store the field in the same observed locations and write the same constants for an absent value; S2 a setter changes no location read for another field (member granularity inside blobs, read-modify-write identity recognised, file name / extension of the path excepted); S3 every UPDATE / DELETE a track mutator reaches is restricted to id = id() of the handle; F1 each of the 114 facade methods forwards to the impl virtual of the same name.',
+   note='Trusted: clang AST, sa/valueflow.py, SQL reader. Not decided: values after arbitrary setter sequences (value level). Five known findings, all one root cause (1.x bpm / bpmAnalyzed columns, see C01).',
+   ref='DESIGN.md 4 C06')
+
 NOT_APPLICABLE = {
  'C19': 'numerical result of integer/floating arithmetic over all inputs (ceiling division, quantisation, minimality, monotonicity): no structural clause beyond the division guard, which C15-U6 covers; a sound decision needs an arithmetic solver or proof (different family)',
  'C20': 'floating-point numerical behaviour of beat-grid extrapolation (bracketing, tempo preservation, idempotence up to rounding); only the iterator arithmetic is shape-visible and is covered by C15-U3',
